@@ -12,11 +12,21 @@
 (* don't-care is rejected; a don't-care tamper is accepted; every other region lies inside an         *)
 (* authenticated interval at Accept; nothing authenticated lies beyond the file.                      *)
 (* GEN: the terminal action prints one JSON line per (shape, tampered region class, verdict).         *)
+(* The tour is a set of CELLS (container version, key type, region class): the harness has to execute  *)
+(* every cell the model rejects on real bytes (a tampered walk of a real export of that version and key *)
+(* type).  On the plainest signed shape the SRK structures are split into their documented sub-fields   *)
+(* (SrkRegs; lemma SrkRegsTile) and every key type is enumerated in both container versions.            *)
 EXTENDS AhabRom, Json, IOUtils
 
 Full == IF "MC_FULL" \in DOMAIN IOEnv THEN IOEnv.MC_FULL = "1" ELSE FALSE
 
-Kts == IF Full THEN {"ecc256", "ecc384", "ecc521", "rsa2048", "rsa3072", "rsa4096"} ELSE {"ecc256", "rsa2048"}
+AllKts == {"ecc256", "ecc384", "ecc521", "rsa2048", "rsa3072", "rsa4096"}
+Kts == AllKts
+(* the plainest signed shape (one plain image, no unsigned container in front, no blob, no certificate, nothing revoked): on it the  *)
+(* quick configuration enumerates EVERY key type in both container versions, and the SRK structures are tampered with at the          *)
+(* granularity of their documented sub-fields (SrkRegs) - the tour then has one cell per container version x key type x sub-field    *)
+Plainest(sh) == sh.srkSet # 0 /\ sh.nImg = 1 /\ ~sh.pre /\ ~sh.enc /\ ~sh.ext /\ sh.cert = "none" /\ sh.revoke = 0
+QuickKts(sh) == IF Plainest(sh) THEN AllKts ELSE IF sh.cver = 2 THEN {"ecc256"} ELSE {"ecc256", "rsa2048"}
 (* shape: cver, pre (an unsigned one-image container sits in slot 0 in front of the main container),  *)
 (*        srkSet / used / revoke / kt of the main container, nImg, enc (image 0 encrypted, blob),      *)
 (*        ext (image 0 size-extended: stored size > input length),                                     *)
@@ -34,7 +44,7 @@ Shapes ==
       /\ (sh.enc => ~sh.ext)
       /\ (sh.revoke # 0 => ~sh.pre /\ sh.nImg = 1 /\ ~sh.enc /\ ~sh.ext)         \* the revoking pairs on the plainest shape
       /\ (~Full /\ sh.revoke # 0 => sh.cver = 1 /\ sh.kt = "ecc256")                \* quick: all 64 pairs for one key type
-      /\ (~Full /\ sh.cver = 2 => sh.kt \in {"none", "ecc256"}) }
+      /\ (~Full /\ sh.srkSet # 0 => sh.kt \in QuickKts(sh)) }                      \* quick: every key type on the plainest shape
 
 (* ---- the documented layout *)
 Al(cver, n) == IF cver = 2 THEN n ELSE ((n + 7) \div 8) * 8
@@ -91,6 +101,27 @@ IaeRegs(sh, j) ==
        R(IF j = 0 /\ sh.enc THEN "iae.iv.encrypted" ELSE p \o "iae.iv.plain", o + 96, o + 128),
        R(IF j = 0 /\ sh.enc THEN "image.encrypted" ELSE "image", ImgAt(sh, j), ImgAt(sh, j) + ImgSize(sh, j)),
        R("gap", ImgAt(sh, j) + ImgSize(sh, j), ImgAt(sh, j) + 2048) >> \o IaeRegs(sh, j + 1)
+(* ---- the SRK structures by sub-field (documented layouts; class names = those of the executor, harness/lib/ahab_rom3.py):           *)
+(* record head: +0 tag, +1 length (2), +3 signing algorithm, +4 hash algorithm, +5 key size, +6 not used, +7 flags, +8 the two       *)
+(* parameter lengths (4); behind it the key material (version 1) resp. the hash of the SRK data (version 2).  Version 2 puts an     *)
+(* array head (version / length / tag, number of tables, 3 reserved bytes) in front of the table and the SRK data of the used key    *)
+(* (head: version / length / tag, record number, 3 reserved bytes; key material) behind it.                                          *)
+RecSub == << <<"tag", 0, 1>>, <<"length", 1, 3>>, <<"alg", 3, 4>>, <<"hash_alg", 4, 5>>, <<"key_size", 5, 6>>, <<"reserved", 6, 7>>,
+             <<"flags", 7, 8>>, <<"par_len", 8, 12>> >>
+Who(sh, r) == IF r = sh.used THEN "used" ELSE "other"
+RecRegs(sh, q, r) ==
+  [i \in 1..Len(RecSub) |-> R("srk.rec." \o RecSub[i][1] \o "." \o Who(sh, r), q + RecSub[i][2], q + RecSub[i][3])]
+  \o << R("srk.rec_key." \o Who(sh, r), q + RecHdrLen, q + RecLen(sh.cver, sh.kt)) >>
+SrkRegs(sh, at) ==
+  LET tab == IF sh.cver = 2 THEN at + ArrHdrLen ELSE at
+      rl  == RecLen(sh.cver, sh.kt)
+      q0  == tab + TabHdrLen
+      sd  == tab + TabLen(sh) IN
+  (IF sh.cver = 2 THEN << R("srk.array.head", at, at + 4), R("srk.array.count", at + 4, at + 5), R("srk.array.reserved", at + 5, at + ArrHdrLen) >> ELSE << >>)
+  \o << R("srk.table_hdr", tab, q0) >>
+  \o RecRegs(sh, q0, 0) \o RecRegs(sh, q0 + rl, 1) \o RecRegs(sh, q0 + 2 * rl, 2) \o RecRegs(sh, q0 + 3 * rl, 3)
+  \o (IF sh.cver = 2 THEN << R("srk.data.head", sd, sd + 4), R("srk.data.id", sd + 4, sd + 5), R("srk.data.reserved", sd + 5, sd + DataHdrLen),
+                              R("srk.data_key", sd + DataHdrLen, sd + DataHdrLen + ParLen(sh.kt)) >> ELSE << >>)
 Regions(sh) ==
   LET c == CAt(sh)  s == SbAt(sh)  p == IF Signed(sh) THEN "" ELSE "u." IN
   NonEmpty(
@@ -101,8 +132,9 @@ Regions(sh) ==
                 ELSE << >>)
     \o << R(p \o "hdr", c, c + HdrLen) >> \o IaeRegs(sh, 0)
     \o << R(p \o "sb", s, s + SbHdrLen),
-          R("srk", s + SbHdrLen, s + (IF Signed(sh) THEN SbHdrLen + SrkLen(sh) ELSE SbHdrLen)),
-          R("srk.pad", s + SbHdrLen + SrkLen(sh), s + SigOff(sh)),
+          R("srk", s + SbHdrLen, s + (IF Signed(sh) /\ ~Plainest(sh) THEN SbHdrLen + SrkLen(sh) ELSE SbHdrLen)) >>
+    \o (IF Plainest(sh) THEN SrkRegs(sh, s + SbHdrLen) ELSE << >>)
+    \o << R("srk.pad", s + SbHdrLen + SrkLen(sh), s + SigOff(sh)),
           R("sig.hdr", s + SigOff(sh), s + SigOff(sh) + (IF Signed(sh) THEN SigHdrLen ELSE 0)),
           R("sig.data", s + SigOff(sh) + SigHdrLen, s + SigOff(sh) + SigTot(sh)),
           R("cert", s + CertOff(sh), s + CertOff(sh) + CertSigOff(sh)),
@@ -225,5 +257,11 @@ DontCareAccepted   == (s.st = "Rejected" /\ t # 0) => TReg.n \notin DontCare
 RegionsCovered == s.st = "Accepted" =>
   \A i \in 1..Len(reg) : reg[i].n \notin DontCare => \E iv \in s.cov : iv[1] <= reg[i].a /\ reg[i].b <= iv[2]
 NothingBeyond == s.st = "Accepted" => \A iv \in s.cov \cup s.imgs \cup s.conts : iv[2] <= FileLen(shape)
+(* the sub-fields of the SRK structures tile the SRK area exactly: no byte of it is left out of the tour, none belongs to two classes *)
+SrkRegsTile == Plainest(shape) =>
+  LET at == SbAt(shape) + SbHdrLen
+      rs == SrkRegs(shape, at) IN
+  /\ rs[1].a = at /\ rs[Len(rs)].b = at + SrkLen(shape)
+  /\ \A i \in 1..Len(rs) : rs[i].a < rs[i].b /\ (i < Len(rs) => rs[i].b = rs[i + 1].a)
 ContainersInSlots == s.st = "Accepted" => \A c \in s.conts : c[1] % Slot(shape.cver) = 0
 =============================================================================
